@@ -23,6 +23,10 @@ def check(ctx):
     decode.fallback_to_fast(ctx)
     decode.crash_shapes(ctx, fns)
     decode.closest_combination_distance(ctx)
+    # a choice that can never become active (below a derivation cycle nothing derives) is left in every instance and
+    # makes every decode fail: the design space graph contains only what the start nodes derive (finding F23)
+    from . import c02 as _c02
+    _c02.start_closure(ctx)
     # the tables the decode relies on (scenario index sets, caches) are not corrupted by earlier decodes
     from ..rules import persist
     ps = persist.Persist(ctx, [ctx.fn(f'{GP}.get_graph')], fns)
